@@ -9,11 +9,16 @@ import OH.Props.C02
 namespace OH.Props.C03
 open OH.Model OH.Model.Cal OH.Props.C02
 
+/-- for every instant before 10000-01-01 and every bound (none, negative, huge): no side condition -/
 theorem C03_state_partial {ctx : Ctx} {e : Expr} (ok : DayLevelOK ctx e)
-    (hb : ∀ b, ctx.bound = some b → -nsPerDay ≤ b ∧ b + nsPerDay ≤ deltaMax)
-    {t : Int} (hrep : t + nsPerMin ≤ instMax) (hlt : t < instEnd) :
+    {t : Int} (hlt : t < instEnd) :
     state ctx e t = .ok (pointState ctx e t) :=
-  C02A.state_eq_pointKind ok hb hrep hlt
+  C02A.state_eq_pointKind ok hlt
+
+/-- from 10000-01-01 on `state` is closed (early return) -/
+theorem C03_state_after_end_partial {ctx : Ctx} {e : Expr} (ok : DayLevelOK ctx e)
+    {t : Int} (hge : instEnd ≤ t) : state ctx e t = .ok .closed :=
+  C02A.state_after_end ok hge
 
 /-- `some c`: strictly after `t`, before 10000-01-01, constant on `[t, c)` (never earlier), different at `c` (never later) -/
 theorem C03_next_change_some_partial {ctx : Ctx} {e : Expr} (ok : DayLevelOK ctx e) (hb : ctx.bound = none)
